@@ -130,6 +130,9 @@ func (e *Engine) call(fr *frame, st *State, in *ssa.Call) *State {
 		for _, r := range rets {
 			rs := r.st
 			cls := e.bindResults(rs, in, f, r.ret)
+			if e.PostCallHook != nil {
+				e.PostCallHook(e, rs, in, f)
+			}
 			if e.Trace != nil && e.TraceFn != "" && strings.Contains(shortFn(f), e.TraceFn) {
 				e.trace("RET %s before cleanup: %s", shortFn(f), rs.String())
 			}
